@@ -17,7 +17,8 @@ from . import refread
 HARD = ["del_file", "truncate", "extend", "insert_boundary", "insert_data", "remove_data", "fab_shape", "fab_ncomp",
         "fab_shift", "cellh_shift", "cellh_reshape", "cellh_delbox", "cellh_delbox_fix", "cellh_delfod",
         "cellh_delfod_fix", "cellh_garble_box", "cellh_garble_tokens", "fod_garble_offset", "fod_garble_tokens",
-        "fod_nofile", "fod_other", "fod_data", "fod_eof", "fod_negative", "del_cellh", "del_both_fix"]
+        "fod_nofile", "fod_other", "fod_data", "fod_eof", "fod_negative", "del_cellh", "del_both_fix",
+        "fab_ncomp_consistent", "nfields_plus"]
 COORD = ["bounds_shift"]
 # kinds that tend to survive validation (C20's domain)
 SOFT = ["off_prefix", "ws_cellh", "ws_header", "fab_prefix_text", "swap_pairs", "minmax_edit", "payload_flip",
@@ -31,7 +32,8 @@ C04_CLASS = {"del_file": "missing-file", "del_cellh": "level-header", "truncate"
              "cellh_garble_tokens": "level-header", "fod_garble_offset": "level-header",
              "fod_garble_tokens": "level-header", "fod_nofile": "level-header", "fod_other": "level-header",
              "fod_data": "level-header", "fod_eof": "level-header", "fod_negative": "level-header",
-             "del_both_fix": "level-header", "bounds_shift": "coordinates"}
+             "del_both_fix": "level-header", "bounds_shift": "coordinates", "fab_ncomp_consistent": "layout",
+             "nfields_plus": "layout"}
 
 
 def op_strategy(kinds, max_lv=3):
@@ -251,6 +253,37 @@ def _apply(p, op):
             i = 2 + inf["nf"] + 3 + (amt % 2)      # geo_lo / geo_hi lines
             t[i] = "  " + t[i].replace(" ", "   ")
         _rw(os.path.join(p, "Header"), f)
+    elif k == "fab_ncomp_consistent":
+        # the last FAB of the file announces one component less AND its data is cut accordingly: the file is
+        # self-consistent byte-wise but disagrees with the plotfile's field count
+        d = rd()
+        fabs, tiles = scan_file(fp)
+        if not tiles or not fabs or fabs[-1]["nc"] < 2:
+            raise NotApplicable("needs a tiling file whose last FAB has >= 2 components")
+        fb = fabs[-1]
+        ncell = (fb["end"] - fb["hend"]) // (8 * fb["nc"])
+        h = d[fb["start"]:fb["hend"]]
+        new = re.sub(rb" (\d+)\n$", lambda m: b" " + str(fb["nc"] - 1).encode() + b"\n", h)
+        wr(d[:fb["start"]] + new + d[fb["hend"]:fb["end"] - 8 * ncell])
+    elif k == "nfields_plus":
+        # the plotfile consistently announces one field more than the FABs hold (Header and every level header)
+        def fh(t):
+            t[1] = str(inf["nf"] + 1)
+            t.insert(2 + inf["nf"], "extra_field")
+        _rw(os.path.join(p, "Header"), fh)
+        for ll in range(inf["maxlev"] + 1):
+            if inf["levels"][ll] is None:
+                continue
+
+            def fc(t, ll=ll):
+                t[2] = str(inf["nf"] + 1)
+                nbl = inf["levels"][ll]["nb"]
+                for i in range(len(t)):
+                    if t[i] == f"{nbl},{inf['nf']}":
+                        t[i] = f"{nbl},{inf['nf'] + 1}"
+                    elif i > inf["levels"][ll]["fod0"] + nbl and t[i].endswith(",") and t[i].count(",") == inf["nf"]:
+                        t[i] = t[i] + "0.0000000000000000e+00,"
+            _rw(cellh_path(p, ll), fc)
     elif k == "fod_path":
         # the recorded file name spelled with a redundant path component
         _rw(ch, lambda t: t.__setitem__(io_, t[io_].replace("Cell_D_", ["./Cell_D_", f"../Level_{l}/Cell_D_", ".//Cell_D_"][amt % 3], 1)))
